@@ -266,6 +266,16 @@ class Normalizer:
         if b is None:
             return None
         prefix, mapping = b
+        # names the inlined body introduces into the flattened function: a helper
+        # inlined later must not capture them either
+        if isinstance(getattr(self, "_caller_names", None), set):
+            introduced = set()
+            for nm in _names_assigned(body_of(t.node)):
+                m_ = mapping.get(nm, nm)
+                introduced.add(m_ if isinstance(m_, str) else nm)
+            for st_ in prefix:
+                introduced |= {x.id for tg in st_.targets for x in ast.walk(tg) if isinstance(x, ast.Name)}
+            self._caller_names |= introduced
         body = [copy.deepcopy(x) for x in body_of(t.node)]
         ren = _Rename(mapping)
         body = [ren.visit(x) for x in body]
@@ -515,6 +525,15 @@ class Normalizer:
                 # tuple unpacking from a tuple literal handled by Defs already
                 return n
 
+            def visit_Subscript(self, n: ast.Subscript):
+                self.generic_visit(n)
+                # (a, b)[1] -> b  (unpacking of a tuple literal / of an inlined helper's tuple result)
+                if isinstance(n.value, (ast.Tuple, ast.List)) and isinstance(n.slice, ast.Constant) and isinstance(n.slice.value, int):
+                    k = n.slice.value
+                    if -len(n.value.elts) <= k < len(n.value.elts) and not any(isinstance(e, ast.Starred) for e in n.value.elts):
+                        return n.value.elts[k]
+                return n
+
             def visit_Attribute(self, a: ast.Attribute):
                 # record field of a local built by a keyword constructor call:
                 #   size = _Size(num_jobs=J, num_machines=M) ... size.num_machines  ->  M
@@ -554,7 +573,10 @@ class Normalizer:
                         b = norm._bind(t, c, "x", subst_all=True)
                         if b is not None and not b[0]:
                             e = copy.deepcopy(body[0].value)
-                            return _Rename(b[1]).visit(e)
+                            e = _Rename(b[1]).visit(e)
+                            # helpers used by the helper: expand again in the
+                            # helper's own scope (no local aliases there)
+                            return norm.xexpr(norm._tmp_fi(t, fi), e, depth - 1, _seen) if depth > 1 else e
                 return c
 
         return X().visit(copy.deepcopy(node))
